@@ -320,6 +320,16 @@ fn serde_cmp_item(src: &str, v: &Spanned<SNode>, ri: &Item, p: &str) -> Result<(
             return Err(format!("Spanned value {} has range {:?}, Item::span() is {:?}", p, v.span(), sp));
         }
     }
+    if ri.span().is_none() {
+        // a table without a span of its own (dotted / implicit): the range handed to Spanned is derived from its
+        // contents, so it has to contain every child
+        if let SNode::Tab(st) = v.get_ref() {
+            for (k, c) in st {
+                inside(&k.span(), &v.span(), &format!("serde key {}.{:?}", p, k.get_ref()))?;
+                inside(&c.span(), &v.span(), &format!("serde value {}.{:?}", p, k.get_ref()))?;
+            }
+        }
+    }
     match (v.get_ref(), ri) {
         (SNode::Tab(st), Item::Table(t)) => serde_cmp_table(src, st, t, p),
         (SNode::Tab(st), Item::Value(Value::InlineTable(t))) => serde_cmp_table(src, st, t, p),
